@@ -15,7 +15,7 @@ pub const DEF: PropDef = PropDef {
     id: "C13",
     run,
     oracle,
-    rule: "cases = V5/V7 packets (raw-byte records) and conformant V9/IPFIX histories whose templates contain a random subset, in random order, of the ten projected elements (source/destination address in the IPv4 or the IPv6 variant, one template in eight with both, ports, protocol, first/last switched resp. flowStart/EndSysUpTime, source/destination MAC; natural widths, IPFIX ports and sysUpTime also in the reduced sizes RFC 7011 6.2 allows) mixed with 0..4 unrelated fields (IPFIX: also enterprise-specific elements, some numbered like a projected element, which must not be projected); 1..20 records per data set, several data sets and packets per buffer, options templates/data and template sets in between, optionally a truncated packet at the end (an Error element). Oracle: projection computed by the harness from the independent reference decode of the bytes: version; timestamp (sys_up_time for V5/V7/V9, export_time for IPFIX); one flow per data record in order; every member is Some(value derived from the wire bytes) iff the record's template has that element, else None; as_netflow_common must equal it member by member, Error elements must convert to Err, and parse_bytes_as_netflow_common_flowsets on a twin parser must equal the in-order concatenation over the non-error elements. non-trivial = a V9/IPFIX data set with >= 2 records whose template has >= 3 projected elements and >= 1 unrelated one; distinct by digest.",
+    rule: "cases = V5/V7 packets (raw-byte records) and conformant V9/IPFIX histories whose templates contain a random subset, in random order, of the ten projected elements (source/destination address in the IPv4 or the IPv6 variant, one template in eight with both, ports, protocol, first/last switched resp. flowStart/EndSysUpTime, source/destination MAC; natural widths, IPFIX ports and sysUpTime also in the reduced sizes RFC 7011 6.2 allows) mixed with 0..4 unrelated fields (a fixed pool of counters, strings, post-MACs, direction / version / end-reason elements, or any element of the library's table in a legal width; IPFIX: also enterprise-specific elements, some numbered like a projected element, which must not be projected); 1..20 records per data set, several data sets and packets per buffer, options templates/data and template sets in between, optionally a truncated packet at the end (an Error element). Oracle: projection computed by the harness from the independent reference decode of the bytes: version; timestamp (sys_up_time for V5/V7/V9, export_time for IPFIX); one flow per data record in order; every member is Some(value derived from the wire bytes) iff the record's template has that element, else None; as_netflow_common must equal it member by member, Error elements must convert to Err, and parse_bytes_as_netflow_common_flowsets on a twin parser must equal the in-order concatenation over the non-error elements. non-trivial = a V9/IPFIX data set with >= 2 records whose template has >= 3 projected elements and >= 1 unrelated one; distinct by digest.",
     assumptions: &["projected elements are generated with their natural widths (ports 2, protocol 1, times 4, addresses 4/16, MAC 6; IPFIX ports also 1 and sysUpTime also 1-3 bytes) and at most once per template"],
 };
 
@@ -394,8 +394,17 @@ pub fn make_projected(v9: bool, sel: Vec<usize>, s6: bool, d6: bool, extra: Vec<
                     fields.push(FieldSpec { ie, len, ent: Some([9u32, 29305, 1, 0xffff_ffff][(a as usize) >> 6]) });
                     continue;
                 }
+                if b % 4 == 1 {
+                    // any element of the library's table, in a legal width (never a second
+                    // copy of a projected element: which copy the view should show is not
+                    // specified)
+                    let f = if v9 { gen::v9_field_pub(c, d, a) } else { gen::ipfix_field_pub(c.min(194), d, a, c) };
+                    if f.ent.is_none() && f.len != VARLEN && f.len > 0 && ![8u16, 27, 12, 28, 7, 11, 4, 22, 21, 56, 80].contains(&f.ie) {
+                        fields.push(f);
+                        continue;
+                    }
+                }
                 let (ie, len) = pool[(a as usize * pool.len()) >> 8];
-                let _ = (b, c, d);
                 fields.push(FieldSpec { ie, len, ent: None });
             }
             if fields.is_empty() {
